@@ -47,6 +47,19 @@ def make(cfg, seed, opd_scale=1.0, wl=None, tilt=None):
     w = lentil.Wavefront(use_wl, tilt=[1e-6, -2e-6] if tilt == 'wavefront' else None) * pupil
     if tilt == 'plane':
         w = w * lentil.Tilt(x=1e-6, y=0)
+    if tilt == 'dispersive':
+        w = w * lentil.DispersiveTilt(trace=[1.0, 0.0], dispersion=[2.0 ** -10, use_wl * 0.99])
+    if tilt == 'grism':
+        import warnings as _w
+        with _w.catch_warnings():
+            _w.simplefilter('ignore')
+            w = w * lentil.Grism(trace=[1.0, 0.0], dispersion=[2.0 ** -10, use_wl * 0.99])
+    if tilt == 'duck':
+        class _MyTilt:                       # any object that can shift a Field is tilt metadata
+            def shift(self, xs=0, ys=0, z=0, **kwargs):
+                return xs + 1e-5, ys, z
+        for f in w.data:
+            f.tilt.append(_MyTilt())
     return w, op.phasor(amp, opd, wl0)
 
 
@@ -89,7 +102,7 @@ def accepted_shapes(Ngrid, os_, tier):
     return out
 
 
-SCRATCH = ['none', 'exact', 'plus1', 'plus2', 'dirty', 'nan-margin', 'zero-sum']
+SCRATCH = ['none', 'exact', 'plus1', 'plus2', 'dirty', 'nan-margin', 'zero-sum', 'nonfinite']
 
 
 def build_scratch(mode, Ngrid):
@@ -108,6 +121,12 @@ def build_scratch(mode, Ngrid):
         s = np.zeros((Ngrid[0] + 1, Ngrid[1]), dtype=complex)
         k = np.arange(Ngrid[0] * Ngrid[1]).reshape(Ngrid)
         s[:Ngrid[0], :Ngrid[1]] = (k - k[::-1, ::-1]) * (1 + 2j)      # antisymmetric inside the working region
+        return s
+    if mode == 'nonfinite':
+        # an np.empty-like buffer: NaN and infinities everywhere, the working region included
+        s = np.full((Ngrid[0] + 1, Ngrid[1] + 1), np.nan + 0j, dtype=complex)
+        s[::2, ::3] = np.inf
+        s[1::2, 1::3] = -np.inf * 1j
         return s
     if mode == 'nan-margin':
         s = np.full((Ngrid[0] + 2, Ngrid[1] + 2), np.nan + 0j, dtype=complex)
@@ -320,7 +339,7 @@ def t_cfg(arg, acc):
                                 acc.transitions += 1
                                 chk({'kind': 'fft', 'cfg': cfg, 'shape': shape, 'scratch': sm}, acc, seed)
                         if eps == 0 and support == 'full':
-                            for what in ('shape', 'scratch-small', 'fit', 'wavefront', 'plane', 'image-wavefront-tilt'):
+                            for what in ('shape', 'scratch-small', 'fit', 'wavefront', 'plane', 'dispersive', 'grism', 'duck', 'image-wavefront-tilt'):
                                 acc.transitions += 1
                                 chk_refuse({'kind': 'refuse', 'cfg': cfg, 'what': what}, acc, seed)
 
